@@ -15,6 +15,8 @@ pub(super) use sharded_shuffle::execute_sharded_shuffle;
 pub(super) use test_multiply::execute_test_multiply;
 
 pub use self::hybrid::execute_hybrid_protocol;
+#[cfg(feature = "ipa-verif")]
+pub(crate) use self::hybrid::Query as VerifHybridQuery;
 use crate::{error::Error, query::ProtocolResult};
 
 pub(super) type QueryResult = Result<Box<dyn ProtocolResult>, Error>;
